@@ -40,8 +40,7 @@ RULE = (
     "after every event, only at the end} x dtype; invariant per instantiated class: capability properties == methods "
     "the class defines, every product == dense, .H.mv == rmv, the class's own _rmv/_mm/_rmm/_fullmatrix is the one "
     "called.  distinct = distinct per-case observation tables; trivial = no product evaluated.")
-RULE_ADDED = ('Added later: operand batch (2,), every product also under torch.no_grad(). Round 4: leaf idv (identi'
-              'ty whose _mv hands back its argument) and the operand-immutability oracle after every product.')
+RULE_ADDED = 'Added later: operand batch (2,), every product also under torch.no_grad(). Round 4: leaf idv (identity whose _mv hands back its argument) and the operand-immutability oracle after every product. Round 6: fullmatrix results overwritten in place by the caller and asked for again; adjoint consistency (H.fullmatrix == fullmatrix^H, H.mv == rmv) inside uselinopparams after .H was evaluated.'
 ASSUMPTIONS = [
     "matrix entries are N(0,1) draws from a fixed generator stream (plane 0; thorough adds one plane derived from "
     "VERIF_SEED for the <= 2-leaf parts); sizes 2 and 3",
